@@ -558,6 +558,35 @@ def oracle_c06(an):
                 if reqf and reqf[0]['f'].get('n') != n0:
                     V('initial_n_altered', 'interaction %d: initial_request_n(%d) sent as %s' % (iid, n0, reqf[0]['f'].get('n')),
                       reqf[0]['seq'], ep=ep)
+    # credit the consumer granted reaches the producer's publisher (same values, same order); grants
+    # may only go missing once the producer has terminated
+    if an.fault_free and an.world.incomplete is None:
+        for iid, ia in an.ia.items():
+            if ia['kind'] not in ('stream', 'channel') or iid not in an.sid_of or ia.get('api') == 'awaitable':
+                continue
+            for prod_role, cons_role, script in (('responder', 'requester', ia.get('resp')), ('requester', 'responder', ia.get('pub'))):
+                if not script or script.get('src') is None:
+                    continue
+                if cons_role == 'responder' and (ia.get('resp') or {}).get('sub') is None:
+                    continue
+                prod = an.pubs.get((iid, prod_role), [])
+                if not [e for e in prod if e['cb'] == 'subscribe']:
+                    continue
+                received = [e['n'] for e in prod if e['cb'] == 'request']
+                granted = [g['n'] for g in an.acts.get(iid, ()) if g['what'] == 'credit' and g.get('role') == cons_role]
+                if cons_role == 'requester':
+                    granted = [ia.get('sub', {}).get('initial_n', 0x7FFFFFFF)] + granted
+                if received != granted[:len(received)]:
+                    V('credit_altered', 'interaction %d: %s granted %s, the %s publisher was asked for %s'
+                      % (iid, cons_role, granted[:6], prod_role, received[:6]), None, role=prod_role, src=script.get('src'))
+                elif len(received) < len(granted):
+                    finished = [e for e in prod if e['cb'] in ('complete', 'error', 'on_complete', 'exhausted', 'error_signal',
+                                                               'cancel', 'on_cancel')] or _emitted_all_flagged_role(
+                        an, iid, prod_role, prod, float('inf'))
+                    if not finished:
+                        V('credit_lost', 'interaction %d: %s granted %d credits in %d grants, only %d grants reached the %s publisher, '
+                                         'which is still waiting' % (iid, cons_role, sum(granted), len(granted), len(received), prod_role),
+                          None, role=prod_role, src=script.get('src'))
     # completeness: at quiescence every element for which credit was granted has been sent
     if an.fault_free and an.stopped:
         for iid, ia in an.ia.items():
